@@ -34,13 +34,17 @@ echo "demo without change: exit $W0 (want 0); with change: exit $W1 (want non-ze
 if [ $W0 -ne 0 ] || [ $W1 -eq 0 ] || [ $B -ne 0 ]; then echo "NOT CONFIRMED"; cd /; git -C /repo worktree remove --force $WT; exit 1; fi
 # run the checks against the scratch worktree (the change is applied there; /repo stays untouched).
 # each check gets its own evidence/replay area so that /verif's committed evidence is not disturbed.
+# the checks run from a snapshot of /verif's committed HEAD, so that edits in progress in /verif cannot
+# leak into the verdict
+SNAP=/tmp/verif-snap-$NAME
+rm -rf $SNAP; mkdir -p $SNAP; git -C /verif archive HEAD | tar -x -C $SNAP
 CAUGHT=""
 for c in $CHECKS; do
-  OUT=$(cd /verif && VERIF_REPO=$WT VERIF_EVIDENCE_DIR=/tmp/seed-evidence-$NAME ./check $c 2>&1); RC=$?
+  OUT=$(cd $SNAP && VERIF_REPO=$WT VERIF_EVIDENCE_DIR=/tmp/seed-evidence-$NAME ./check $c 2>&1); RC=$?
   echo "$OUT" | grep -E "^VIOLATION|violations=|^INFRA" | cut -c1-160 | head -3
   if [ $RC -eq 1 ]; then CAUGHT="$CAUGHT $c"; fi
 done
-rm -rf /tmp/seed-evidence-$NAME
+rm -rf /tmp/seed-evidence-$NAME $SNAP
 cd /; git -C /repo worktree remove --force $WT
 mkdir -p /verif/seeded/$NAME
 cp $SRC/patch.diff /verif/seeded/$NAME/patch.diff
